@@ -43,6 +43,8 @@ impl Date {
     /// assert!(2021 < date.year());
     /// ```
     pub fn now() -> Self {
+        #[cfg(feature = "verif")]
+        use crate::verif::SystemTime;
         let days = SystemTime::now()
             .duration_since(UNIX_EPOCH)
             .expect("Time went backwards")
